@@ -191,6 +191,9 @@ def render_v2000(rnd: random.Random, m: Mol, mode: dict) -> str:
     iso = [(i + 1, a["mass"]) for i, a in enumerate(m.atoms) if a["mass"]]
     if mode.get("zeros"):
         iso += [(i + 1, 0) for i, a in enumerate(m.atoms) if not a["mass"] and a["sym"] not in "DT" and rnd.random() < .2]
+    if mode.get("iso_on_dt"):
+        # an ISO entry naming a D/T atom (any value, also a contradictory one): D and T keep denoting hydrogen-2 / -3
+        iso += [(i + 1, rnd.choice([0, 1, 2, 3, 5, 13])) for i, a in enumerate(m.atoms) if a["sym"] in "DT" and rnd.random() < .7]
     if iso:
         props += prop_lines(rnd, "ISO", iso)
     if mode.get("extras"):
